@@ -88,7 +88,13 @@ class ExprMixin:
     def glob_value(self, st, module, name):
         key = (module, name)
         if key in st.globs:
-            return [(st, st.globs[key])]
+            v = st.globs[key]
+            if not self.spec and isinstance(v, VOpt):
+                res = self.split_value(st, v, self.schema.globs[key].T)
+                for s, vv in res:
+                    s.globs[key] = vv
+                return res
+            return [(st, v)]
         decl = self.schema.globs[key]
         if decl.const is not None:
             v = decl.const
@@ -596,6 +602,10 @@ class ExprMixin:
             return [self.val(st, VObj(_bitand(to_obj_term(a), to_obj_term(b))))]
         if isinstance(op, ast.BitOr) and (isinstance(a, VObj) or isinstance(b, VObj)):
             return [self.val(st, VObj(_bitor(to_obj_term(a), to_obj_term(b))))]
+        if isinstance(a, VObj) or isinstance(b, VObj):
+            f = z3.Function(f"obj_binop_{op.__class__.__name__}", ty.IntS, ty.IntS, ty.IntS)
+            self.abstractions.add("arithmetic on opaque objects is uninterpreted")
+            return [self.val(st, VObj(f(to_obj_term(a), to_obj_term(b))))]
         raise EngineError(f"binary {op.__class__.__name__} on {a!r}, {b!r}")
 
     def abs_union(self, a, b, st):
@@ -855,6 +865,10 @@ class ExprMixin:
             return self.get_slice(VSeq(st.lst_get(c), c.T.elem), lo, hi, step, st)
         if isinstance(c, VAbs) and lo is None and hi is None and step is not None and self._const_int(step) == -1:
             return [self.val(st, VAbs(c.mem, c.length, c.elem, src=("rev", c)))]
+        if isinstance(c, VObj):
+            f = z3.Function("obj_getslice", ty.IntS, ty.IntS, ty.IntS, ty.IntS)
+            return [self.val(st, VObj(f(c.t, to_obj_term(lo) if lo is not None else z3.IntVal(0),
+                                        to_obj_term(hi) if hi is not None else z3.IntVal(0))))]
         raise EngineError(f"slice of {c!r}")
 
     # ------------------------------------------------------------------
